@@ -336,7 +336,9 @@ pub fn build(
                 let mut function = function.clone();
                 let original_name = function.name.clone();
                 if associated_functions_used_names.contains(&original_name) {
-                    function.name = format!("{}_{}", base_name, original_name);
+                    // `original_name` may be a raw identifier, which cannot appear inside a name
+                    let unprefixed_name = original_name.strip_prefix("r#").unwrap_or(&original_name);
+                    function.name = format!("{}_{}", base_name, unprefixed_name);
                 }
                 // A function without a receiver cannot go through the base field;
                 // it keeps its own body, which has the same effect.
